@@ -13,7 +13,7 @@
    them) and are not modelled.  No proofs here. *)
 From Coq Require Import String List NArith ZArith Bool.
 From J5V.lib Require Import Outcome.
-From J5V.model Require Import ReflectDesc ReflectSchema Reflect ExportForm Export.
+From J5V.model Require Import ReflectDesc ReflectSchema Reflect ExportForm Export ReflectOwn.
 Import ListNotations.
 Local Open Scope bool_scope.
 
@@ -248,10 +248,11 @@ Definition api_of_set_from (api0 : xapi) (S : sset) : outcome xapi :=
 Definition api_of_set (wanted : list str) (S : sset) : outcome xapi := api_of_set_from (api_init wanted) S.
 
 (* APIFromImage: addStructure over the services [svcs] of the image, then addSchemas for the selected
-   files visited in the order [fs] *)
+   files visited in the order [fs]; the reflection is the reader as the code is, with the ownership
+   of schema names (ReflectOwn.v: two descriptors asking for one name are an error) *)
 Definition api_from_image (D : desc) (svcs : list svcd) (wanted : list str) (fs : list filed) : outcome xapi :=
   obind (lift (add_structure wanted (api_init wanted) svcs)) (fun api0 =>
-  obind (reflect D fs) (api_of_set_from api0)).
+  obind (omap fst (o_reflect D fs)) (api_of_set_from api0)).
 
 (* what PackageSetFromSourceAPI walks: every schema of every package and sub-package under the
    name it files it under *)
